@@ -299,6 +299,10 @@ def hashtbl_jobs(tier):
         jobs.append(Job("hashtbl-r%d-empty" % rng, H, [rng, 4 if X else 3, 5], wraps=VA_WRAPS, weight=10))
     for rng in (1, 7, 0):
         jobs.append(Job("hashtbl-pair-r%d" % rng, H, ["pair", rng], wraps=VA_WRAPS, weight=2))
+    # histories without merging (hidden state the canonical key cannot know): from a table of 3 keys every sequence of <= 3 (thorough 4) operations, reads included
+    for rng in (1, 3):
+        for i in range(4):
+            jobs.append(Job("hashtbl-hist-r%d-%d" % (rng, i), H, [rng, 4, 2, "hist", 3, 4 if X else 3, i, 4], wraps=VA_WRAPS, weight=10))
     jobs.append(bigfmt_job("qhashtbl"))
     jobs.append(Job("hashtbl-hugerange", H, ["hugerange"], wraps=VA_WRAPS, flavour="plain", weight=3))   # no sanitizer: 24 GB of untouched calloc pages
     return jobs
@@ -353,6 +357,10 @@ def list_jobs(tier):
     for kind in ("queue", "stack", "grow"):
         jobs.append(Job("%s-L%d" % (kind, 7 if X else 5), ["seqmc/qsg.c"], [kind, 7 if X else 5], wraps=VA_WRAPS, weight=10))
     jobs.append(bigfmt_job("qgrow")); jobs.append(bigfmt_job("qqueue")); jobs.append(bigfmt_job("qstack"))
+    # histories without merging (hidden state the canonical key cannot know): from lists of 4 and 5 elements every sequence of <= 3 (thorough 4 from 4 elements) operations, reads included
+    for n, depth, shards in ((4, 3, 4), (5, 3, 4)) + (((4, 4, 16),) if X else ()):
+        for i in range(shards):
+            jobs.append(Job("list-hist-n%d-d%d-%d" % (n, depth, i), ["seqmc/list.c"], [n + 2, "hist", n, depth, i, shards], wraps=VA_WRAPS, weight=12))
     return jobs
 
 
@@ -379,6 +387,10 @@ def vector_jobs(tier):
         for osz in sizes:
             for pol in range(3):
                 jobs.append(Job("vector-c%d-s%d-p%d" % (cap, osz, pol), ["seqmc/vector.c"], [cap, osz, pol, 6 if X else 4], wraps=VA_WRAPS, weight=8 if X else 2))
+    # histories without merging (hidden state the canonical key cannot know): from a vector of 4 elements every sequence of <= 3 operations, reads included
+    for cap, osz, pol in ((0, 8, 2), (4, 3, 0)) + (((2, 33, 1),) if X else ()):
+        for i in range(4):
+            jobs.append(Job("vector-hist-c%d-s%d-p%d-%d" % (cap, osz, pol, i), ["seqmc/vector.c"], [cap, osz, pol, 6, "hist", 4, 3, i, 4], wraps=VA_WRAPS, weight=10))
     return jobs
 
 
